@@ -15,6 +15,9 @@ mod reference_counter;
 mod tree;
 mod verifier;
 
+#[cfg(blue_verif)]
+pub mod verif;
+
 pub use kvs::{KeyValueStore, WriteBatch};
 pub use tree::{CompactionID, LsmTree, NUM_LEVELS};
 pub use verifier::{LsmVerifier, ManifestVerifier};
